@@ -168,6 +168,35 @@ def handle (line : String) : Out :=
               let q := Spec.applyMove p sm
               b3 (q.inCheck q.turn) ++ b3 (q.inCheck .white) ++ b3 (q.inCheck .black))
     ⟨model, spec⟩
+  | "attacksafter" =>
+    -- attacksafter <fen...>: per legal move (generation order) what the SUCCESSOR answers: all attacks and pawn attacks of
+    -- White and of Black (four u64) and the three check flags — the real objects are built by make-move from a predecessor whose
+    -- attack sets were queried before
+    let fen := rest 1
+    let b3 (x : Bool) : String := if x then "1" else "0"
+    let model := match parseFenM fen with
+      | Option.none => "badfen"
+      | some s =>
+        let ms := legalMoves s
+        s!"{ms.length} " ++ joinSp (ms.map fun r =>
+          let cb := CachedBoard.new r.2.pieces
+          s!"{((cb.attacks .white).2).toNat},{((cb.attacks .black).2).toNat},{((cb.pawnAttacks .white).2).toNat},{((cb.pawnAttacks .black).2).toNat}," ++
+            b3 r.2.isCheck ++ b3 ((cb.isCheck .white).2) ++ b3 ((cb.isCheck .black).2))
+    let spec := match specOf fen with
+      | none => "-"
+      | some p =>
+        match parseFenM fen with
+        | Option.none => "-"
+        | some s =>
+          let ms := legalMoves s
+          s!"{ms.length} " ++ joinSp (ms.map fun r =>
+            match toSpecMove r.1 with
+            | Option.none => "???"
+            | some sm =>
+              let q := Spec.applyMove p sm
+              s!"{specAttackSet q .white false},{specAttackSet q .black false},{specAttackSet q .white true},{specAttackSet q .black true}," ++
+                b3 (q.inCheck q.turn) ++ b3 (q.inCheck .white) ++ b3 (q.inCheck .black))
+    ⟨model, spec⟩
   | "slider" =>
     let sq := parts[2]!.toNat!
     let occ := parts[3]!.toNat!.toUInt64
@@ -367,6 +396,32 @@ def handle (line : String) : Out :=
       let ms := legalMoves s
       ⟨s!"{ms.length} " ++ joinSp (ms.map fun r =>
         s!"{(hash kt.keys r.2).toNat}:{match evaluate r.2 .white 1 with | some e => toString e | Option.none => "panic"}"), "-"⟩
+  | "playline" =>
+    -- playline <seed> <fen with _> <raw>* : the moves are made one after the other on the OBJECT (never re-read); per ply
+    -- `fen;raw,raw,…;hash;evalW;evalB` of the object reached, and ` REREAD-DIFFERS …` if the object re-read from its own FEN
+    -- answers anything differently (C11: a position reached by play, written and read back, is the same position)
+    let seed := parts[1]!.toNat!
+    let fen := (parts[2]!).replace "_" " "
+    match parseFenM fen with
+    | Option.none => ⟨"badfen", "-"⟩
+    | some s0 =>
+      let (kt, _) := KeyTable.ofRng (Rng.seedFromU64 seed.toUInt64)
+      let descr (s : State) : String :=
+        let ev (c : Color) : String := match evaluate s c 1 with | some e => toString e | Option.none => "panic"
+        let ms : List String := (legalMoves s).map fun r => toString r.1.toNat
+        s!"{(writeFen s).replace " " "_"};{",".intercalate ms};{(hash kt.keys s).toNat};{ev .white};{ev .black}"
+      let step (acc : Option State × List String) (raw : String) : Option State × List String :=
+        match acc.1 with
+        | Option.none => acc
+        | some s =>
+          match (legalMoves s).find? (fun r => r.1.toNat == raw.toNat!) with
+          | Option.none => (Option.none, acc.2 ++ ["nomove"])
+          | some r =>
+            let d := descr r.2
+            let d' := match parseFenM (writeFen r.2) with | some s' => descr s' | Option.none => "badfen"
+            (some r.2, acc.2 ++ [if d == d' then d else d ++ " REREAD-DIFFERS " ++ d'])
+      let out := (parts.drop 3).foldl step (some s0, [])
+      ⟨" | ".intercalate out.2, "-"⟩
   | "eval" =>
     -- eval <w|b> <ply> <fen...>
     let persp : Color := if parts[1]! == "w" then .white else .black
